@@ -137,7 +137,7 @@ func (f *fixedHeader) ReadRemaining(r io.Reader) (ControlPacket, error) {
 		return p, nil
 	}
 	data := make([]byte, int(f.remainingLen))
-	if _, err := r.Read(data); err != nil {
+	if _, err := io.ReadFull(r, data); err != nil {
 		return nil, fmt.Errorf(
 			"%s ReadRemaining: %w",
 			firstByte(f.fixed).String(), err,
